@@ -163,6 +163,31 @@ class RectEngine(TableEngine):
     def assign(self, tgt, v, cx, rebind=False):
         return Engine.assign(self, tgt, v, cx, rebind=rebind)
 
+    def builtin_set(self, e, cx):
+        if e.args:
+            v = self.eval(e.args[0], cx)
+            if isinstance(v, PyMap):
+                return PySet(v.dom)                       # set(dict): its keys
+            if isinstance(v, PyNameList):
+                arr = FreshConst(z3.ArraySort(V, BoolS), "nameset")
+                x = z3.Const("x!ns", V)
+                cx.assume(z3.ForAll([x], z3.Select(arr, x) == v.has(x), patterns=[z3.Select(arr, x)]))
+                return PySet(arr)
+        return super().builtin_set(e, cx)
+
+    def binop(self, op, a, b, cx, inplace=False, node=None):
+        if isinstance(op, ast.Sub) and isinstance(a, PySet) and isinstance(b, PySet):
+            arr = FreshConst(z3.ArraySort(V, BoolS), "setdiff")
+            x = z3.Const("x!sd", V)
+            cx.assume(z3.ForAll([x], z3.Select(arr, x) == z3.And(z3.Select(a.arr, x), z3.Not(z3.Select(b.arr, x))), patterns=[z3.Select(arr, x)]))
+            return PySet(arr)
+        return super().binop(op, a, b, cx, inplace=inplace, node=node)
+
+    def method_hook(self, recv, name, e, cx, recv_node):
+        if isinstance(recv, PyMap) and name == "keys" and not e.args:
+            return PySet(recv.dom)                        # (a key view: read as the set of keys)
+        return super().method_hook(recv, name, e, cx, recv_node)
+
     def builtin_list(self, e, cx):
         v = self.eval(e.args[0], cx) if e.args else None
         if isinstance(v, PyNameList):
